@@ -371,7 +371,7 @@ def judge(prop, h, res):
             if declared_reject and A.tool_error is None:
                 out["findings"].append({"prop": "C02", "sec": sec, "what": "a declared superficial loss that contradicts the computed one (or a sale without loss) is accepted",
                                         "detail": {"reason": A.ref_reject[1], "date": str(A.ref_reject[0].td), "declared": A.ref_reject[0].row.get("sfl")}})
-            if tool_declared and not declared_reject:
+            if tool_declared and not declared_reject and "sfl_threshold_tie" not in A.features:
                 out["findings"].append({"prop": "C02", "sec": sec, "what": "a declared superficial loss within 0.001 of the computed one (or forced) is rejected",
                                         "detail": {"msg": A.tool_error}})
         if prop == "C04":
@@ -409,10 +409,13 @@ def judge_c04(out, h, sec, A, table):
             if sec not in A.tool_error and False:
                 pass
     else:
-        if A.tool_error is not None:
+        if A.tool_error is not None and "sfl_threshold_tie" in A.features and "superficial loss was specified" in A.tool_error:
+            c["threshold_ties_rejected"] = c.get("threshold_ties_rejected", 0) + 1     # undecidable at the threshold itself
+        elif A.tool_error is not None:
             margin = rounding_margin(A.tool_error)
             out["findings"].append({"prop": "C04", "sec": sec, "what": "valid history rejected",
-                                    "detail": {"msg": A.tool_error, "rounding_margin": margin}})
+                                    "detail": {"msg": A.tool_error, "rounding_margin": margin,
+                                               "lookahead_dust": lookahead_dust(h, sec, A.tool_error)}})
         else:
             c["accepted"] = c.get("accepted", 0) + 1
             if not A.consumed_all:
@@ -430,6 +433,33 @@ def judge_c04(out, h, sec, A, table):
         if bad:
             out["findings"].append({"prop": "C04", "sec": sec, "what": "rejected security still shows capital-gain totals",
                                     "detail": {"footer": foot[9]}})
+
+
+def lookahead_dust(h, sec, msg):
+    """Input-side description of a known rounding residue: the tool says a share count 'went below zero in 30-day
+    period after sale (on D)', while in exact arithmetic the sale traded on D leaves its affiliate (or all
+    affiliates together) with exactly zero shares, and a split whose factor does not terminate in decimal settles
+    in the 45 days before it (so the look-ahead re-expresses those quantities with a rounded division)."""
+    m = re.search(r"went below zero in 30-day period after sale \(on (\d{4}-\d{2}-\d{2})\)", msg or "")
+    if not m:
+        return False
+    D = m.group(1)
+    evs = ref.events_by_security(h["rows"]).get(sec, [])
+    init = h.get("init", {}).get(sec)
+    led = ref.Ledger(init)
+    for i, e in enumerate(evs):
+        if ref.apply_event(evs, i, led, None) is not None:
+            return False
+        if e.action == "Sell" and str(e.td) == D:
+            zero = led.shares(e.af) == 0 or sum(led.sh.values(), Fraction(0)) == 0
+            if not zero:
+                continue
+            for x in evs[:i]:
+                if x.action == "Split" and 0 <= (e.sd - x.sd).days <= 45:
+                    for q in (x.factor, 1 / x.factor):
+                        if any(pf not in (2, 5) for pf in ref.prime_factors_small(q.denominator)):
+                            return True
+    return False
 
 
 def rounding_margin(msg):
@@ -563,14 +593,19 @@ def run(prop, tier):
                 V.nontriv(j["cid"])
             if "history_sample" in j:
                 V.sample(j["history_sample"])
+            kinds_done = set()
             for f in j["findings"]:
                 sig = {"what": f["what"], "msg": str(f["detail"].get("msg", "")),
                        "rounding_margin": f["detail"].get("rounding_margin"),
+                       "lookahead_dust": bool(f["detail"].get("lookahead_dust")),
                        "reason": f["detail"].get("reason")}
+                kind_ = (f["what"], sig["rounding_margin"], sig["lookahead_dust"], sig["reason"])
+                if kind_ in kinds_done:
+                    continue          # one report per kind of finding and history (a known kind must not hide another)
+                kinds_done.add(kind_)
                 V.violation("%s: %s %s [%s]" % (f["sec"], f["what"], json.dumps(f["detail"])[:300], j["name"]),
                             {"kind": "history", "prop": prop, "name": j["name"], "history": j.get("history"),
                              "finding": f}, sig)
-                break
     if prop == "C04":
         output_modes(V, pop, tier)
     for k, v in totals.items():
